@@ -200,13 +200,27 @@ reg("C14", "exploration",
 ALL = ["C%02d" % i for i in range(1, 21)]
 
 
+# wave 8 / wave 9 strengthenings
+EXTRA2 = {
+    "C02": " Data fields longer than the 256-byte randomisation sequence; recovery (next valid frame accepted) after a buffer-full of garbage.",
+    "C04": " A payload with an escape byte in front of every escapable value.",
+    "C06": " First-come first-served order is also checked inside the packet-send priority class.",
+    "C09": " The same EZSP object is closed and connected again (third reset + negotiation + configuration write, with every single line fault on that connection).",
+    "C12": " Foreign confirmations of non-direct message types; packets whose set-up request (extended time-out, source route) precedes the send; multicast / broadcast packets mixed in.",
+    "C14": " The reference NCP keeps the outgoing frame counters in tokens of their own (kept across leave / key-table clear / reboot, zeroed by formNetwork only without NO_FRAME_COUNTER_RESET and by tokenFactoryReset); the prior network carries a different counter, so a counter of 0 must really be written.",
+    "C17": " Two operations waiting for one stack status; repeated scan readings for one channel.",
+    "C18": " The sweep is repeated with DEBUG logging enabled.",
+    "C19": " A successful feed whose free-buffer read is refused; connect() once more on the same application object between any two feeds (closed graph and stateless sequences): the run of failures continues across it.",
+}
+
+
 def build() -> dict:
     checks = []
     for pid in ALL:
         if pid not in CHECKS:
             continue
         cat, tech, text, note, ref = CHECKS[pid]
-        text = text + EXTRA.get(pid, "")
+        text = text + EXTRA.get(pid, "") + EXTRA2.get(pid, "")
         checks.append({
             "property_id": pid,
             "quick_cmd": f"./check {pid} --tier quick",
